@@ -366,6 +366,9 @@ def _edge_item(diff):
     return '%s/%s/%s' % (e[1], e[2], where)
 
 
+LIFECYCLE = ('MinimizeAllB', 'MinimizeSomeB', 'AbortB', 'CloseB', 'ResetCaches')
+
+
 class GraphReplayer:
     """storage: 'mapping' | 'file';  pattern: one of PATTERNS"""
 
@@ -377,7 +380,11 @@ class GraphReplayer:
         self.ids = {}         # (dbname, oid) -> model node
         self.formats = {}     # reference formats met in raw records (informational)
         self.soft = {}        # (what, item) -> description: divergences that do not stop the replay
-        self.counts = {'records': 0, 'refs_checked': 0, 'loads': 0, 'exports': 0, 'imports': 0, 'packs': 0}
+        self.counts = {'records': 0, 'refs_checked': 0, 'loads': 0, 'exports': 0, 'imports': 0, 'packs': 0,
+                       'loads_after_reset': 0, 'loads_reusing_objects': 0, 'handle_checks': 0, 'probes': 0}
+        self.B = self.Bclosed = self.tmb = None     # the loading connection (see load_elsewhere)
+        self.handles = {}     # (db, oid) -> object handed out by B in its current cache generation
+        self.exported_for = None
 
     # ---- lifecycle ----
     def _storage(self, name):
@@ -424,12 +431,13 @@ class GraphReplayer:
         self.ids[(ob._p_jar.db().database_name, ob._p_oid)] = n
 
     def close(self):
-        for c in (getattr(self, 'tm', None),):
+        for c in (getattr(self, 'tmb', None), getattr(self, 'tm', None)):
             try:
                 c.abort()
             except Exception:
                 pass
-        for c in (getattr(self, 'A', None),):
+        self.handles = {}
+        for c in (self.B, getattr(self, 'A', None)):
             try:
                 c.close()
             except Exception:
@@ -485,6 +493,9 @@ class GraphReplayer:
                     self.counts['packs'] += 1
                 elif action == 'LoadElsewhere':
                     pass
+                elif action in LIFECYCLE:
+                    with hidden(GONE_MOD):
+                        self.lifecycle(action, state['res'])
                 else:
                     raise RuntimeError('replayer does not know action %s' % action)
             except _Blocked:
@@ -682,101 +693,180 @@ class GraphReplayer:
         ob._p_activate()
         return {a: v for a, v in ob.__dict__.items() if not a.startswith('_')}
 
-    def load_elsewhere(self, state):
+    # ---- the loading connection B and its life-cycle ----
+    def _b_conn(self, db):
+        return self.B if db == '1' else self.B.get_connection(db)
+
+    def open_b(self, res):
+        """db.open(): the pooled connection comes back (and resets its cache if resetCaches() ran)."""
         import transaction
+        if self.B is not None:
+            self.tmb.abort()                 # B is open: bring it to a new transaction
+            return
+        if self.tmb is None:
+            self.tmb = transaction.TransactionManager()
+        B = self.db1.open(self.tmb)
+        if res['reused'] and B is not self.Bclosed:
+            raise RuntimeError('the pool of database "1" did not hand back the closed connection')
+        self.B, self.Bclosed = B, None
+
+    def close_b(self):
+        self.tmb.abort()
+        self.B.close()
+        self.B, self.Bclosed = None, self.B
+
+    def check_handles(self, after):
+        """every object handed out in this cache generation is still THE object of its oid"""
+        for (db, oid), ob in sorted(self.handles.items()):
+            if self._b_conn(db).get(oid) is not ob:
+                raise Mismatch('identity', 'changed-object', 'after %s, get(oid) of node %s in the re-used connection is not '
+                               'the object handed out earlier in the same cache generation' % (after, self.ids.get((db, oid))))
+            self.counts['handle_checks'] += 1
+
+    def lifecycle(self, action, res):
+        """MinimizeAllB / MinimizeSomeB / AbortB / CloseB / ResetCaches on the real connection B"""
+        import sys as _sys
+        if action == 'ResetCaches':
+            _sys.modules['ZODB.Connection'].resetCaches()
+            return
+        if self.B is None:
+            raise RuntimeError('%s with connection B not open' % action)
+        if action == 'MinimizeAllB':
+            self.B.cacheMinimize()
+        elif action == 'MinimizeSomeB':
+            for i, key in enumerate(sorted(self.handles)):
+                if i % 2 == 0:
+                    self.handles[key]._p_deactivate()
+        elif action == 'AbortB':
+            self.tmb.abort()
+        elif action == 'CloseB':
+            self.close_b()
+            return
+        self.check_handles(action)
+
+    def load_elsewhere(self, state):
         from ZODB.POSException import POSKeyError
         self.counts['loads'] += 1
+        res = state['res']
         view = state['obs']['view']
-        tmb = transaction.TransactionManager()
         exports = {}
         with hidden(GONE_MOD):
-            B = self.db1.open(tmb)
-            try:
-                if state['packed']:
-                    # a pack sends no invalidations: "another connection" is one that has not cached the
-                    # packed-away objects (the pool may hand back the connection of an earlier load)
-                    B.cacheMinimize()
-                seen = {}          # (db, oid) -> object: one in-memory object per oid per connection
+            self.open_b(res)
+            B = self.B
+            if res['fresh']:
+                self.counts['loads_after_reset'] += 1
+            if not res['same']:
+                self.handles = {}      # objects of a discarded cache generation (or none yet)
+            elif self.handles:
+                self.counts['loads_reusing_objects'] += 1
+            if state['packed']:
+                # a pack sends no invalidations: "another connection" is one that has not cached the
+                # packed-away objects - the application lets go of them, the cache drops the unreferenced ghosts
+                for key in [k for k in self.handles if k[0] == '1' and not view[self.ids[k]]['p']]:
+                    del self.handles[key]
+                B.cacheMinimize()
+            seen = {}          # (db, oid) -> object: one in-memory object per oid per connection
+            via = {}           # node -> object as reached through a reference (not through get)
 
-                def conn_of(db):
-                    return B if db == '1' else B.get_connection(db)
+            def identify(ob, how):
+                db = ob._p_jar.db().database_name
+                key = (db, ob._p_oid)
+                if ob._p_jar is not self._b_conn(db):
+                    raise Mismatch('identity', 'jar', 'object reached %s belongs to another connection' % how)
+                if seen.setdefault(key, ob) is not ob or self._b_conn(db).get(ob._p_oid) is not ob:
+                    raise Mismatch('identity', 'two-objects', 'oid %r of database %s has two in-memory objects in one '
+                                   'connection (reached %s)' % (ob._p_oid, db, how))
+                if self.handles.get(key, ob) is not ob:
+                    raise Mismatch('identity', 'changed-object', 'the object of node %s reached %s is not the one handed out '
+                                   'earlier by the same connection in the same cache generation' % (self.ids.get(key), how))
+                n = self.ids.get(key)
+                if n is None:
+                    raise Mismatch('load', 'unknown-oid', 'reference reached %s leads to oid %r of database %s, which is '
+                                   'no object of the graph' % (how, ob._p_oid, db))
+                bad = self._kind_check(n, ob)
+                if bad:
+                    raise Mismatch('class', self.kinds.get(n, 'foreign'), 'node %d loaded %s: %s' % (n, how, bad))
+                k = self.kinds[n] if n < 100 else fkind(n)
+                if k == 'newargs' and _CLS.GNodeNew.new_args.get(id(ob)) != node_name(n):
+                    raise Mismatch('class', k, '__new__ of node %d (reached %s) received %r, not its __getnewargs__() value' % (
+                        n, how.split(' node')[0].split(' through')[0], _CLS.GNodeNew.new_args.get(id(ob))))
+                return n
 
-                def identify(ob, how):
-                    db = ob._p_jar.db().database_name
-                    key = (db, ob._p_oid)
-                    if ob._p_jar is not conn_of(db):
-                        raise Mismatch('identity', 'jar', 'object reached %s belongs to another connection' % how)
-                    if seen.setdefault(key, ob) is not ob or conn_of(db).get(ob._p_oid) is not ob:
-                        raise Mismatch('identity', 'two-objects', 'oid %r of database %s has two in-memory objects in one '
-                                       'connection (reached %s)' % (ob._p_oid, db, how))
-                    n = self.ids.get(key)
-                    if n is None:
-                        raise Mismatch('load', 'unknown-oid', 'reference reached %s leads to oid %r of database %s, which is '
-                                       'no object of the graph' % (how, ob._p_oid, db))
-                    bad = self._kind_check(n, ob)
-                    if bad:
-                        raise Mismatch('class', self.kinds.get(n, 'foreign'), 'node %d loaded %s: %s' % (n, how, bad))
-                    k = self.kinds[n] if n < 100 else fkind(n)
-                    if k == 'newargs' and _CLS.GNodeNew.new_args.get(id(ob)) != node_name(n):
-                        raise Mismatch('class', k, '__new__ of node %d (reached %s) received %r, not its __getnewargs__() value' % (
-                            n, how.split(' node')[0].split(' through')[0], _CLS.GNodeNew.new_args.get(id(ob))))
-                    return n
+            from ZODB.utils import z64
+            if B.root() is not B.get(z64):
+                raise Mismatch('identity', 'root', 'root() and get(oid 0) give two objects')
+            root = B.root()['g0']
+            if identify(root, 'from the root mapping') != 0:
+                raise Mismatch('load', 'root', 'the root mapping does not lead to node 0')
+            via[0] = root
+            for n in sorted(self.kinds):
+                oid = self.nodes[n]._p_oid
+                want = view[n]
+                if oid is None:
+                    continue
+                try:
+                    ob = B.get(oid)
+                    ob._p_activate()       # the connection may still hold a ghost of a packed-away object
+                except POSKeyError:
+                    ob = None
+                if (ob is not None) != want['p']:
+                    raise Mismatch('load', 'present' if ob is not None else 'absent',
+                                   'node %d in another connection: spec %s, implementation %s' % (
+                                       n, want['p'], ob is not None))
+                if ob is None:
+                    continue
+                if identify(ob, 'by get(oid)') != n:
+                    raise Mismatch('load', 'wrong-node', 'get(oid of node %d) gave another node' % n)
 
-                root = B.root()['g0']
-                if identify(root, 'from the root mapping') != 0:
-                    raise Mismatch('load', 'root', 'the root mapping does not lead to node 0')
-                # twice: as loaded, and again after the connection's cache has deactivated every object it holds
-                # (cache garbage collection between two accesses; the objects are still referenced from `seen`)
-                for again in (False, True):
-                    if again:
-                        if not self.opts.get('regc', True):
-                            break
-                        B.cacheMinimize()
-                    for n in sorted(self.kinds):
-                        oid = self.nodes[n]._p_oid
-                        want = view[n]
-                        if oid is None:
-                            continue
-                        try:
-                            ob = B.get(oid)
-                            ob._p_activate()       # a pooled connection may still hold a ghost of a packed-away object
-                        except POSKeyError:
-                            ob = None
-                        if (ob is not None) != want['p']:
-                            raise Mismatch('load', 'present' if ob is not None else 'absent',
-                                           'node %d in another connection: spec %s, implementation %s' % (
-                                               n, want['p'], ob is not None))
-                        if ob is None:
-                            continue
-                        if identify(ob, 'by get(oid)') != n:
-                            raise Mismatch('load', 'wrong-node', 'get(oid of node %d) gave another node' % n)
-
-                        def resolve(holder, ref, n=n):
-                            if isinstance(ref, WeakRef):
-                                kind = 'weak'
-                                target = ref()
-                                if target is None:
-                                    db = getattr(ref, 'database_name', None) or '1'
-                                    return (self.ids.get((db, ref.oid), 'unknown:%r' % (ref.oid,)), kind, holder, False)
-                            else:
-                                kind, target = 'strong', ref
-                            d = identify(target, 'from node %d through a %s reference in %s' % (n, kind, holder))
-                            st = self._state_of(d, target)
-                            if st.get('name') != node_name(d):
-                                raise Mismatch('load', 'wrong-state', 'oid of node %d carries the state of %r' % (d, st.get('name')))
-                            return (d, kind, holder, True)
-                        st = self._state_of(n, ob)
-                        name, tag, edges, problems = decode_state(
-                            st, lambda v: isinstance(v, (persistent.Persistent, WeakRef)), resolve)
-                        wedges = edge_tuples(want['e'], alive=True)
-                        k = self.kinds[n]
-                        if has_newargs(k) and tag != node_name(n):
-                            problems.append('tag %r' % (tag,))
-                        if problems or edges != wedges or name != node_name(n):
-                            raise Mismatch('load', _edge_item(edges ^ wedges) if edges ^ wedges else 'state',
-                                           'node %d (%s) loaded in another connection: spec %s, implementation %s %s' % (
-                                               n, k, sorted(wedges), sorted(edges, key=repr), problems))
-                # export: a consumer of reference extraction (works on records, classes not needed)
+                def resolve(holder, ref, n=n):
+                    if isinstance(ref, WeakRef):
+                        kind = 'weak'
+                        target = ref()
+                        if target is None:
+                            db = getattr(ref, 'database_name', None) or '1'
+                            return (self.ids.get((db, ref.oid), 'unknown:%r' % (ref.oid,)), kind, holder, False)
+                    else:
+                        kind, target = 'strong', ref
+                    d = identify(target, 'from node %d through a %s reference in %s' % (n, kind, holder))
+                    via.setdefault(d, target)
+                    st = self._state_of(d, target)
+                    if st.get('name') != node_name(d):
+                        raise Mismatch('load', 'wrong-state', 'oid of node %d carries the state of %r' % (d, st.get('name')))
+                    return (d, kind, holder, True)
+                st = self._state_of(n, ob)
+                name, tag, edges, problems = decode_state(
+                    st, lambda v: isinstance(v, (persistent.Persistent, WeakRef)), resolve)
+                wedges = edge_tuples(want['e'], alive=True)
+                k = self.kinds[n]
+                if has_newargs(k) and tag != node_name(n):
+                    problems.append('tag %r' % (tag,))
+                if problems or edges != wedges or name != node_name(n):
+                    raise Mismatch('load', _edge_item(edges ^ wedges) if edges ^ wedges else 'state',
+                                   'node %d (%s) loaded in another connection: spec %s, implementation %s %s' % (
+                                       n, k, sorted(wedges), sorted(edges, key=repr), problems))
+            # a modification made through one path (the object a referrer holds) must be visible through the
+            # other (get(oid)); the abort must take it back through both
+            probed = []
+            for d, target in sorted(via.items()):
+                k = self.kinds[d] if d < 100 else fkind(d)
+                if is_gone(k):
+                    continue                   # placeholders refuse modification
+                conn = target._p_jar
+                target.probe = self.counts['loads']
+                if conn.get(target._p_oid).__dict__.get('probe') != self.counts['loads']:
+                    raise Mismatch('identity', 'modification-invisible', 'a change of node %d made through a reference is not '
+                                   'visible through get(oid)' % d)
+                probed.append((d, target))
+                self.counts['probes'] += 1
+            self.tmb.abort()
+            for d, target in probed:
+                other = target._p_jar.get(target._p_oid)
+                other._p_activate()
+                if 'probe' in other.__dict__ or 'probe' in target.__dict__ or other is not target:
+                    raise Mismatch('identity', 'abort', 'after the abort node %d still shows the aborted change' % d)
+            self.handles.update(seen)
+            # export: a consumer of reference extraction (works on records, classes not needed); once per database state
+            if self.exported_for != state['stored']:
                 for n in sorted(self.kinds):
                     if not view[n]['p']:
                         continue
@@ -788,11 +878,10 @@ class GraphReplayer:
                     if got != want:
                         raise Mismatch('export', 'extra' if got - want else 'missing',
                                        'export of node %d: spec %s, implementation %s' % (n, sorted(want), sorted(got, key=repr)))
-            finally:
-                tmb.abort()
-                B.close()
-        for n in sorted(state['obs']['imp']):
-            self.import_check(n, exports[n], state)
+        if exports or self.exported_for != state['stored']:
+            for n in sorted(state['obs']['imp']):
+                self.import_check(n, exports[n], state)
+            self.exported_for = state['stored']
 
     def import_check(self, n, data, state):
         """The copy made by importFile must be isomorphic to the exported sub-graph."""
@@ -881,19 +970,23 @@ def export_oids(data):
 # behaviours
 
 def graph_case_steps(case):
-    """A printed <<"GRAPH", pre, post, packed>> tuple as a behaviour: Init, Commit, Load, Pack, Load."""
-    tag, pre, post, packed = case
-    base = {'kinds': pre['kinds'], 'packed': False}
+    """A printed <<"GRAPH", pre, post, packed, script>> tuple as a behaviour: Init, Commit, then the script TLC
+    folded over the loading connection (traversals at every stage of its life-cycle, a pack, a traversal)."""
+    tag, pre, post, packed, script = case
+    base = {'kinds': pre['kinds'], 'packed': False, 'res': None}
     s0 = dict(base, mem=pre['mem'], added=pre['added'], dirty=pre['dirty'], hasOid=pre['hasOid'],
               stored=None, obs=None)
     s1 = dict(base, mem=pre['mem'], added=frozenset(), dirty=frozenset(), hasOid=post['hasOid'],
               stored=post['stored'], obs=post['obs'])
     s3 = dict(s1, packed=True, stored=packed['stored'], obs=packed['obs'])
-    return [{'action': 'InitGraphs', 'args': (), 'state': s0},
-            {'action': 'Commit', 'args': (), 'state': s1},
-            {'action': 'LoadElsewhere', 'args': (), 'state': s1},
-            {'action': 'Pack', 'args': (), 'state': s3},
-            {'action': 'LoadElsewhere', 'args': (), 'state': s3}]
+    steps = [{'action': 'InitGraphs', 'args': (), 'state': s0},
+             {'action': 'Commit', 'args': (), 'state': s1}]
+    cur = s1
+    for e in script:
+        if e['op'] == 'Pack':
+            cur = s3
+        steps.append({'action': e['op'], 'args': (), 'state': dict(cur, res=e['res'], bconn=e['b'])})
+    return steps
 
 
 def split_graph_cases(output):
